@@ -229,7 +229,12 @@ class SeqEngine(object):
                     H.wrap_readonly(self, i, op)
                     continue
                 if name == "restart":
-                    w.open_store()
+                    try:
+                        w.open_store()
+                    except Exception as e:
+                        self.violation({"C14"}, "config", "config:refused-equal-config:restart:%s" % type(e).__name__,
+                                       {"op": op, "cfg": w.cfg, "error": str(e)[:300]}, i)
+                        break
                     res.flags.add("restart")
                     continue
                 exp = mdl.apply(op)
@@ -301,6 +306,7 @@ class SeqEngine(object):
         w, mdl, res = self.world, self.model, self.res
         mp = w.mp
         a = w.alpha()
+        snap0 = W.snapshot(w.store_root) if self.ro_snapshot else None
         diffs = W.compare_alpha(a, mdl)
         res.states.add(hashlib.sha1(mdl.state_key().encode()).hexdigest()[:12])
         if diffs:
@@ -347,6 +353,12 @@ class SeqEngine(object):
         if _alpha_key(a2) != _alpha_key(a):
             self.violation({"C17"}, "probe", "probe:readonly-changed", {"after": op}, i)
             return
+        if snap0 is not None:
+            snap1 = W.snapshot(w.store_root)
+            if snap1 != snap0:
+                self.violation({"C17"}, "probe", "probe:readonly-changed-snapshot",
+                               {"after": op, "diff": sorted(set(snap1.items()) ^ set(snap0.items()))[:6]}, i)
+                return
         self.check_monitor(op, i)
 
 
